@@ -2,6 +2,10 @@
 (`calc_fuse_group_info`, `replace_with_seq`, `AbelianArray.is_valid_sector`), C06 (`dicts_dont_conflict`), C16
 (`get_u1_charges`), C19 (the coordination counting of `ham_*_from_edges`)).
 
+Task S3 adds: C13 the INTEGER TAIL of `calc_sub_max_bonds` (fragment `calc_sub_max_bonds.tail`; the float head stays
+outside), C16 `get_u1u1_charges` and `choose_duals`, C04 the label scan of `resolve_combined_oddpos` (fragment
+`resolve_combined_oddpos.scan`, a `while` loop with explicit fuel).
+
 `run_tie(ctx, functions)`:
   1. regenerates lean/SymmModel/Gen/Src.lean from $SYMMRAY_REPO with harness/translate.py (rewritten on
      disk only when the text differs),
@@ -107,15 +111,33 @@ GROUPS = {
     ),
     "C16": dict(
         module="SymmModel.Gen.TieRand",
-        functions=["get_u1_charges"],
-        theorems=[_G + n for n in ("get_u1_charges_eq", "pySortedByLex_eq", "u1_key")],
+        functions=["get_u1_charges", "get_u1u1_charges", "choose_duals"],
+        theorems=[_G + n for n in ("get_u1_charges_eq", "pySortedByLex_eq", "u1_key",
+                                   # task S3
+                                   "get_u1u1_charges_eq", "u1u1_key", "choose_duals_eq")],
+    ),
+    # ---- task S3
+    "C13b": dict(
+        module="SymmModel.Gen.TieTrunc",
+        functions=["calc_sub_max_bonds.tail"],
+        theorems=[_G + n for n in ("calc_sub_max_bonds_tail_eq", "calcSubMaxBonds_eq_tail", "pySum_map_ofNat",
+                                   "pyListSet_bump", "tail_fold")],
+    ),
+    "C04b": dict(
+        module="SymmModel.Gen.TieFermi",
+        functions=["resolve_combined_oddpos.scan"],
+        theorems=[_G + n for n in ("scan_unfold", "scanBody_at", "scan_zipper", "scan_eq_resolveScan", "scan_fuel_ok",
+                                   "scan_eq_mergeOddpos")],
     ),
 }
 FUNCTIONS = {k: list(v["functions"]) for k, v in GROUPS.items()}
 FUNCTIONS["C05"] = FUNCTIONS["C05"] + FUNCTIONS.pop("C05b")  # run_tie selects every group that contains one of them
+FUNCTIONS["C13"] = FUNCTIONS["C13"] + FUNCTIONS.pop("C13b")
+FUNCTIONS["C04"] = FUNCTIONS["C04"] + FUNCTIONS.pop("C04b")
 # functions the translator is asked for but which are outside its subset on the reference tree (no Tie theorem)
-NOT_TIED = ["calc_sub_max_bonds", "get_u1u1_charges", "choose_duals", "parse_edges_to_site_info",
-            "resolve_combined_oddpos"]
+# (S3: of `calc_sub_max_bonds` the integer tail, of `resolve_combined_oddpos` the label scan are tied as fragments; the
+# float head / the object mutations around the scan stay outside)
+NOT_TIED = ["calc_sub_max_bonds", "parse_edges_to_site_info", "resolve_combined_oddpos"]
 HAMS = ("ham_tfim_from_edges", "ham_fermi_hubbard_from_edges", "ham_fermi_hubbard_spinless_from_edges")
 
 
@@ -215,7 +237,7 @@ def _run_tie_locked(ctx, functions, groups, timeout):
                 logs.append(f"{g['module']}: axiom audit failed: {json.dumps(bad)[:600]}")
         forb = ctx.lean.grep_forbidden([GEN_DIR / n for n in (
             "Prelude.lean", "PyLemmas.lean", "Src.lean", "Tie.lean", "TieSym.lean", "TieKoszul.lean", "TieUtil.lean",
-            "TieDict.lean", "TieFuse.lean", "TieRand.lean", "TieFermi.lean")])
+            "TieDict.lean", "TieFuse.lean", "TieRand.lean", "TieFermi.lean", "TieTrunc.lean")])
         if forb:
             proved = False
             logs.append("forbidden tokens: " + "; ".join(forb[:5]))
@@ -359,6 +381,28 @@ def box_cases(func):
     if func == "oddpos_dag":  # operators as [label, dual]
         ops = [[l, d] for l in (1, 2, 3) for d in (False, True)]
         return [[[]]] + [[list(c)] for n in (1, 2, 3) for c in itertools.product(ops, repeat=n)]
+    # ---- task S3
+    if func == "calc_sub_max_bonds.tail":  # [sizes, max_bond] with 0 <= max_bond < sum(sizes): the truncating branch
+        out = []
+        for n in range(1, 5):
+            for sizes in itertools.product(range(1, 5 if n < 4 else 4), repeat=n):
+                for mb in range(0, sum(sizes)):
+                    out.append([list(sizes), mb])
+        return out
+    if func == "get_u1u1_charges":
+        return [[n] for n in range(0, 27)]
+    if func == "choose_duals":  # duals: "equal" | None | bool | sequence of None/bool
+        alts = ["equal", None, True, False]
+        alts += [list(c) for n in range(0, 4) for c in itertools.product((None, False, True), repeat=n)]
+        return [[d, ndim] for d in alts for ndim in range(0, 4)]
+    if func == "resolve_combined_oddpos.scan":  # operators as [label, dual]; a label at most twice
+        ops = [[l, d] for l in (1, 2, 3) for d in (False, True)]
+        out = [[[]]]
+        for n in (1, 2, 3, 4):
+            for c in itertools.product(ops, repeat=n):
+                if all(sum(1 for o in c if o[0] == l) <= 2 for l in (1, 2, 3)):
+                    out.append([list(c)])
+        return out
     return []
 
 
@@ -426,7 +470,73 @@ def call_real(func, args):
         from symmray.fermionic_local_operators import FermionicOperator
 
         return [(r.label, bool(r.dual)) for r in fc.oddpos_dag(tuple(FermionicOperator(l, d) for l, d in args[0]))]
+    # ---- task S3
+    if func == "calc_sub_max_bonds.tail":  # observed through the whole function (its float head included)
+        from symmray import linalg
+
+        return [int(x) for x in linalg.calc_sub_max_bonds(tuple(args[0]), args[1])]
+    if func == "get_u1u1_charges":
+        from symmray import utils
+
+        return [(int(a), int(b)) for a, b in utils.get_u1u1_charges(args[0])]
+    if func == "choose_duals":
+        from symmray import utils
+
+        d = args[0]
+        try:
+            r = utils.choose_duals(tuple(d) if isinstance(d, list) else d, args[1])
+        except ValueError:
+            return "ValueError"
+        return [-1 if x is None else int(bool(x)) for x in r]
+    if func == "resolve_combined_oddpos.scan":
+        return _real_scan(args[0])
     raise KeyError(func)
+
+
+def _real_scan(ops):
+    """the real `resolve_combined_oddpos` on stand-in arrays: left carries the labels, right none; the global phase is
+    observed through the calls of `new.phase_global` -> ([(label, dual)…], phase) or "ValueError" """
+    import types
+
+    from symmray import fermionic_core as fc
+    from symmray.fermionic_local_operators import FermionicOperator
+
+    flips = []
+    new = types.SimpleNamespace(_oddpos=None, phase_global=lambda inplace=False: flips.append(1))
+    left = types.SimpleNamespace(oddpos=tuple(FermionicOperator(l, d) for l, d in ops), parity=0)
+    right = types.SimpleNamespace(oddpos=(), parity=0)
+    try:
+        fc.resolve_combined_oddpos(left, right, new)
+    except ValueError:
+        return "ValueError"
+    return ([(r.label, bool(r.dual)) for r in new._oddpos], -1 if len(flips) % 2 else 1)
+
+
+def _scan_oracle(ops):
+    """independent statement of what C04 proves about the label scan (anticommuting operators): pairwise distinct
+    labels -> the canonical order (bras by decreasing label, then kets by increasing label) with the sign of the
+    permutation (`mergeOddpos_spec`); a conjugate pair that stands ADJACENT after a sorted prefix with distinct labels
+    is contracted — sign -1 when the bra stands on the right — and the scan carries on with the remaining list
+    (`resolveScan_annihilate_adjacent`).  `None`: the property does not speak about this input (a conjugate pair that
+    the sort separates before the scan reaches it is kept by the code)."""
+    ops = [tuple(o) for o in ops]
+    key = lambda o: (0, -o[0]) if o[1] else (1, o[0])  # noqa
+    labels = [o[0] for o in ops]
+    if len(set(labels)) == len(labels):
+        inv = sum(1 for i in range(len(ops)) for j in range(i + 1, len(ops)) if key(ops[i]) > key(ops[j]))
+        return (sorted(ops, key=key), -1 if inv % 2 else 1)
+    for p in range(len(ops) - 1):
+        pre = ops[: p + 1]
+        if len({o[0] for o in pre}) != len(pre) or any(key(pre[i]) > key(pre[i + 1]) for i in range(len(pre) - 1)):
+            return None
+        if ops[p][0] == ops[p + 1][0]:
+            if ops[p][1] == ops[p + 1][1]:
+                return "ValueError"  # reached by the scan: `oddpos` must be unique conjugate pairs
+            rest = _scan_oracle(ops[:p] + ops[p + 2:])
+            if rest is None or rest == "ValueError":
+                return None
+            return (rest[0], -rest[1] if ops[p + 1][1] else rest[1])
+    return None
 
 
 class _Term:
@@ -525,6 +635,28 @@ def oracle(func, args):
     if func == "oddpos_dag":  # the conjugate of a product of operators: reversed order, each one conjugated
         n = len(args[0])
         return [(args[0][n - 1 - j][0], not args[0][n - 1 - j][1]) for j in range(n)]
+    # ---- task S3
+    if func == "calc_sub_max_bonds.tail":  # C13: without cutoff the bond dimension equals the limit, split across charges
+        sizes, mb = args
+        f = lambda r: len(r) == len(sizes) and sum(r) == mb and all(0 <= x <= s for x, s in zip(r, sizes))  # noqa
+        f.show = "a split of max_bond across the sectors: entries within [0, size] that sum to max_bond"
+        return f
+    if func == "get_u1u1_charges":  # the n lattice points closest to the origin, ties towards positive x + y
+        import math
+
+        k = math.isqrt(args[0])
+        pts = [(i, j) for i in range(-k + 1, k + 1) for j in range(-k + 1, k + 1)]
+        return sorted(pts, key=lambda p: (p[0] * p[0] + p[1] * p[1], -(p[0] + p[1])))[: args[0]]
+    if func == "choose_duals":
+        d, ndim = args
+        enc = lambda x: -1 if x is None else int(x)  # noqa
+        if d == "equal":
+            return [int(i >= ndim // 2) for i in range(ndim)]
+        if d is None or d is True or d is False:
+            return [enc(d)] * ndim
+        return [enc(x) for x in d] if len(d) == ndim else "ValueError"
+    if func == "resolve_combined_oddpos.scan":
+        return _scan_oracle(args[0])
     raise KeyError(func)
 
 
@@ -547,6 +679,8 @@ def _same(func, real, exp):
         return isinstance(real, bool) and isinstance(exp, bool) and real == exp
     if isinstance(real, bool) or isinstance(exp, bool):
         return False
+    if isinstance(real, str) or isinstance(exp, str):
+        return real == exp  # (S3) an error point, e.g. "ValueError"
     return isinstance(real, tuple) == isinstance(exp, tuple) and real == exp
 
 
@@ -666,6 +800,43 @@ def _lean_case(func, gen_ok):
     if func == "get_u1_charges":
         return ('  | "get_u1_charges" => (toString (Rand.u1Charges (gI a0).toNat), '
                 + g("toString (Gen.get_u1_charges (gI a0))") + ")")
+    # ---- task S3
+    if func == "calc_sub_max_bonds.tail":
+        return ('  | "calc_sub_max_bonds.tail" =>\n'
+                "    let sizes := (gL a0).map Int.toNat\n"
+                "    (toString (calcSubMaxBonds sizes (gI a1)), "
+                + g("toString (Gen.calc_sub_max_bonds.tail (gI a1) ((baseSplit sizes (gI a1).toNat).map Int.ofNat))") + ")")
+    if func == "get_u1u1_charges":
+        return ('  | "get_u1u1_charges" => (toString (Rand.u1u1Charges (gI a0).toNat), '
+                + g("toString (Gen.get_u1u1_charges (gI a0))") + ")")
+    if func == "choose_duals":
+        return ('  | "choose_duals" =>\n'
+                "    let ob (j : Json) : Option Bool := if j.isNull then none else some (gB j)\n"
+                "    let enc (l : List (Option Bool)) : String := toString (l.map (fun (o : Option Bool) => match o with | none => (-1 : Int) | some b => b2i b))\n"
+                '    let m : String := match (match a0 with\n'
+                '        | Json.str _ => Rand.chooseDuals .equal (gI a1).toNat\n'
+                '        | Json.null => Rand.chooseDuals .none (gI a1).toNat\n'
+                '        | Json.bool b => Rand.chooseDuals (.all b) (gI a1).toNat\n'
+                '        | j => Rand.chooseDuals (.seq ((gA j).map ob)) (gI a1).toNat) with\n'
+                '      | .ok l => enc l | .error _ => "\\"ValueError\\""\n'
+                + ('    let gg : String := match Gen.choose_duals (match a0 with\n'
+                   '        | Json.str s => Gen.PyArg.str s\n'
+                   '        | Json.null => Gen.PyArg.none\n'
+                   '        | Json.bool b => Gen.PyArg.bool b\n'
+                   '        | j => Gen.PyArg.seq ((gA j).map ob)) (gI a1) with\n'
+                   '      | .ok l => enc l | .error (.raised c) => "\\"" ++ c ++ "\\"" | .error .outOfFuel => "\\"outOfFuel\\""\n'
+                   if gen_ok else "")
+                + "    (m, " + g("gg") + ")")
+    if func == "resolve_combined_oddpos.scan":
+        return ('  | "resolve_combined_oddpos.scan" =>\n'
+                "    let l := gOps a0\n"
+                "    let fuel := l.length * l.length + 2 * l.length + 4\n"
+                '    let m : String := match resolveScan fuel [] l 1 with\n'
+                '      | .ok r => toString r | .error Err.value => "\\"ValueError\\"" | .error _ => "\\"outOfFuel\\""\n'
+                + ('    let gg : String := match Gen.resolve_combined_oddpos.scan (fun (p : Int × Bool) => p.1) (fun (p : Int × Bool) => p.2) oddLt fuel l 1 with\n'
+                   '      | .ok r => toString r | .error (.raised c) => "\\"" ++ c ++ "\\"" | .error .outOfFuel => "\\"outOfFuel\\""\n'
+                   if gen_ok else "")
+                + "    (m, " + g("gg") + ")")
     return None
 
 
@@ -753,9 +924,11 @@ def _search(ctx, suspects, rep, status):
         except Exception as e:  # noqa
             real, raised = None, f"{type(e).__name__}: {e}"
         exp = oracle(f, a)
-        if callable(exp):
+        if exp is None:  # the property does not speak about this input
+            good, exp_show = True, None
+        elif callable(exp):
             good = raised is None and exp(list(real))
-            exp_show = "positions sorted by non-decreasing value"
+            exp_show = getattr(exp, "show", "positions sorted by non-decreasing value")
         else:
             exp = _norm(exp)
             good = raised is None and _same(f, real, exp)
